@@ -648,8 +648,19 @@ def canon_before_intern(ctx, rid, f, exempt=None):
             start_entry = False
 
         def is_canon(x):
-            return x['k'] == 'call' and x.get('name') == 'CanonicalizePath' and \
-                any(mentions_var(a, v) for a in x.get('args', []))
+            if not (x['k'] == 'call' and x.get('name') == 'CanonicalizePath' and any(mentions_var(a, v) for a in x.get('args', []))):
+                return False
+            args = x.get('args', [])
+            if len(args) == 3 and not mentions_var(args[1], v):
+                # the (char*, size_t* len, bits) overload shortens the text in place and reports the new length in
+                # *len: with a length variable of its own (not the piece's own len_), the string still has its old
+                # length - it is canonical only once it was cut to that length
+                lens = [y['n'] for y in walk(args[1]) if y.get('k') == 'var']
+                cut = [y for y in f.events('call') if lastname(y.get('name')) in ('resize', 'erase', 'assign') and
+                       mentions_var(y.get('recv'), v) and any(mentions_var(y.get('args'), ln) for ln in lens) and
+                       f.dominates_ev(x, y) and f.dominates_ev(y, e)]
+                return bool(cut)
+            return True
         bad = None
         if start_entry:
             bad = f.find_path(None, lambda x: x is e, is_blocker=is_canon, from_succ=f.entry)
